@@ -619,6 +619,62 @@ func genParseFacts(repo, out string, root *pkgFiles) {
 	fmt.Fprintf(&sb, "/-- parameters of ExprEvaluator.getProgram -/\ndef programParams : List String := %s\n", list(params))
 	fmt.Fprintf(&sb, "/-- the key of every store into the compiled-program cache -/\ndef programCacheKeys : List String := %s\n", list(keys))
 	fmt.Fprintf(&sb, "/-- the identifiers the expr.Compile call reads (functions of the expr package aside) -/\ndef programCompileReads : List String := %s\n", list(reads))
+	// Stack.resolveStep: the conjuncts of every `if` that encloses the reflect Index call (an unguarded Index panics)
+	var guards []string
+	if fd := root.method("Stack", "resolveStep"); fd != nil {
+		var walk func(n ast.Node, conds []string)
+		conj := func(e ast.Expr) []string {
+			var out []string
+			var split func(e ast.Expr)
+			split = func(e ast.Expr) {
+				if be, ok := e.(*ast.BinaryExpr); ok && be.Op == token.LAND {
+					split(be.X)
+					split(be.Y)
+					return
+				}
+				if pe, ok := e.(*ast.ParenExpr); ok {
+					if be, ok := pe.X.(*ast.BinaryExpr); ok && be.Op == token.LAND {
+						split(be)
+						return
+					}
+				}
+				out = append(out, types.ExprString(e))
+			}
+			split(e)
+			return out
+		}
+		walk = func(n ast.Node, conds []string) {
+			switch x := n.(type) {
+			case *ast.IfStmt:
+				inner := append(append([]string{}, conds...), conj(x.Cond)...)
+				walk(x.Body, inner)
+				if x.Else != nil {
+					walk(x.Else, conds)
+				}
+				return
+			case *ast.BlockStmt:
+				for _, st := range x.List {
+					walk(st, conds)
+				}
+				return
+			case nil:
+				return
+			}
+			ast.Inspect(n, func(m ast.Node) bool {
+				if ce, ok := m.(*ast.CallExpr); ok {
+					if sel, ok := ce.Fun.(*ast.SelectorExpr); ok && sel.Sel.Name == "Index" && len(ce.Args) == 1 {
+						guards = append(guards, conds...)
+					}
+				}
+				return true
+			})
+		}
+		walk(fd.Body, nil)
+	} else {
+		fail("parse", fmt.Errorf("Stack.resolveStep not found"))
+	}
+	fmt.Fprintf(&sb, "/-- the conditions under which Stack.resolveStep calls reflect's Index -/\ndef indexGuards : List String := %s\n", list(guards))
+	rep.Facts["indexGuards"] = list(guards)
 	rep.Facts["programParams"] = list(params)
 	rep.Facts["programCacheKeys"] = list(keys)
 	rep.Facts["programCompileReads"] = list(reads)
